@@ -211,7 +211,10 @@ def e3_legacy(chk: Check) -> None:
     finals = []
     try:
         for oc in K.run_paths(ex, U.__getnewargs_ex__, [x]):
-            if oc.kind != "return" or not (isinstance(oc.value, tuple) and len(oc.value) == 2 and isinstance(oc.value[1], dict)):
+            if oc.kind == "return" and not (isinstance(oc.value, tuple) and len(oc.value) == 2 and isinstance(oc.value[1], dict)):
+                # the executor returned an OPAQUE value (an abstraction of a call it does not model): its shape is unknown, not wrong
+                raise Unsupported(f"__getnewargs_ex__ returns a value the executor cannot see into: {str(oc.value)[:80]}")
+            if oc.kind != "return":
                 finals.append((oc.st, "raise", oc.value))
                 continue
             args, kwargs = oc.value
